@@ -59,3 +59,41 @@ package redisemu
 //@ requires dssOK(dss) && !held && !mutated && !bumped && !removedKey
 //@ requires free ready: forall j int :: haskey(dss.dbs, j) ==> dbReady(dss.dbs[j])
 //@ modifies *
+
+// the fields of a connection that other connections read (CLIENT LIST / CLIENT
+// INFO): written only by their own connection, under its mutex; read by other
+// connections under that mutex (cmdContext.infoUnlocked); the owner reads them
+// without the lock
+//@ guarded writes clientState.name clientState.respVersion clientState.watches clientState.selectedDb clientState.ds by mutex mu
+
+//@ func clientState.setName
+//@ prop C16
+//@ guards on
+//@ safetyprop none
+//@ requires cs != nil
+//@ modifies cs->name ghost.mutexHeld
+//@ ensures cs.name == name
+
+//@ func clientState.setRespVersion
+//@ prop C16
+//@ guards on
+//@ safetyprop none
+//@ requires cs != nil
+//@ modifies cs->respVersion ghost.mutexHeld
+//@ ensures cs.respVersion == version
+
+//@ func clientState.clearWatches
+//@ prop C16 C09
+//@ guards on
+//@ safetyprop none
+//@ requires cs != nil
+//@ modifies cs->watches alloc map ghost.mutexHeld
+//@ ensures [C09] cleared: emptymap(cs.watches)
+
+//@ func clientState.watchOnce
+//@ prop C16 C10
+//@ guards on
+//@ safetyprop none
+//@ requires cs != nil && cs.watches != nil
+//@ modifies map ghost.mutexHeld
+//@ assertbefore "cs.watches[wk] = id" [C10] first.watch.only: !watched
